@@ -250,10 +250,15 @@ func (l *queryLog) handlePutQueryLogConfig(w http.ResponseWriter, r *http.Reques
 		return
 	}
 
-	defer l.conf.ConfigModified()
+	// Call the function after the mutex is unlocked, but only read it from the
+	// configuration when the mutex is locked.
+	var configModified func()
+	defer func() { configModified() }()
 
 	l.confMu.Lock()
 	defer l.confMu.Unlock()
+
+	configModified = l.conf.ConfigModified
 
 	conf := *l.conf
 
